@@ -1,0 +1,41 @@
+//go:build verif
+
+package state
+
+// Verification hooks (build tag "verif"): read-only views and direct state setters used by
+// the /verif harness. Nothing here is compiled into normal builds.
+
+// VerifConsts returns unexported constants of this package.
+func VerifConsts() map[string]uint64 {
+	return map[string]uint64{
+		"rolloverLowerBound": rolloverLowerBound,
+		"rolloverUpperBound": rolloverUpperBound,
+	}
+}
+
+// VerifState returns the replay window state and the outgoing counter.
+func (sh *SequenceHandler) VerifState() (highest uint32, bitMap uint64, outSeq uint32) {
+	sh.lock.Lock()
+	defer sh.lock.Unlock()
+	return sh.highest, sh.bitMap, sh.outSeq.Load()
+}
+
+// VerifSetState sets the replay window state.
+func (sh *SequenceHandler) VerifSetState(highest uint32, bitMap uint64) {
+	sh.lock.Lock()
+	defer sh.lock.Unlock()
+	sh.highest = highest
+	sh.bitMap = bitMap
+}
+
+// VerifSeqHandlers returns the priority and regular sequence handlers.
+func (s *EncryptionSession) VerifSeqHandlers() (prio, regl *SequenceHandler) {
+	return s.prioSeqHandler, s.reglSeqHandler
+}
+
+// VerifKeys returns copies of the current in and out keys.
+func (s *EncryptionSession) VerifKeys() (in, out []byte) {
+	s.lock.Lock()
+	defer s.lock.Unlock()
+	return append([]byte(nil), s.inKey...), append([]byte(nil), s.outKey...)
+}
